@@ -38,7 +38,7 @@ ASSUME = [
     "KeyboardInterrupt / the wall-clock watchdog are inconclusive, never violations; the step budget is logical (function entries)",
 ]
 SHARDS = {"quick": 16, "thorough": 16}
-BUDGET_S = {"quick": 50, "thorough": 1200}
+BUDGET_S = {"quick": 60, "thorough": 1200}
 ANCHORS = ["main.read_topmatter", "main.merge_file_level", "directives._parse_directive_options", "DocutilsRenderer.run_directive", "html_to_nodes.html_to_nodes", "DocutilsRenderer.render_substitution", "MockIncludeDirective.run",
            "DocutilsRenderer.get_inventory_matches", "SphinxRenderer.render_link_unknown", "DocutilsRenderer.render_front_matter"]
 
@@ -494,6 +494,16 @@ def rand_fault_case(R):
 def run_shard(ctx):
     R = ctx.rng
     quick = ctx.tier == "quick"
+    # fault sequences first (cheap, and their share must not depend on how long the exhaustive matrices below take on a loaded machine)
+    nf = 250 if quick else 12000
+    for i in range(nf):
+        case = rand_fault_case(R)
+        eval_case(ctx, case)
+        ctx.case(repr(case), True)
+        if i == 0:
+            ctx.sample(case)
+        if (i & 0xF) == 0 and ctx.time_left() < ctx.budget_s * 0.5:
+            break
     nd = 1400 if quick else 60000
     for i in range(nd):
         sub, text = make_text(R)
@@ -586,7 +596,7 @@ def run_shard(ctx):
         arg = {"image": "i.png", "figure": "i.png", "include": "ok.md", "raw": "html", "code": "python", "sourcecode": "python", "code-block": "python", "role": "mvr(emphasis)", "unicode": "U+2014", "date": "%Y", "replace": "x", "class": "c",
                "default-role": "emphasis", "title": "T", "meta": "", "csv-table": "T", "table": "T", "list-table": "T"}.get(dname, "Title" if (dcls.required_arguments or dcls.optional_arguments) else "")
         body = {"list-table": "* - a\n  - b", "csv-table": "a,b", "table": "| a |\n|---|", "math": "x", "meta": ":k: v"}.get(dname, "body text" if dcls.has_content else "")
-        for oname in sorted(x for x in (dcls.option_spec or {}) if isinstance(x, str)):
+        for oname in sorted(x for x in (dcls.option_spec or {}) if isinstance(x, str)) + (["relative-images", "relative-docs", "heading-offset"] if dname == "include" else []):
             for v in OPTION_VALUES:
                 k += 1
                 if k % ctx.nshards != ctx.shard:
@@ -624,15 +634,6 @@ def run_shard(ctx):
             case = {"kind": "doc", "sub": "isolation", "shape": k, "text": ""}
             eval_case(ctx, case)
             ctx.case(("isolation", k), True)
-    nf = 250 if quick else 12000
-    for i in range(nf):
-        case = rand_fault_case(R)
-        eval_case(ctx, case)
-        ctx.case(repr(case), True)
-        if i == 0:
-            ctx.sample(case)
-        if (i & 0xF) == 0 and ctx.time_left() < ctx.budget_s * 0.24:
-            break
     # every link form x every hostile destination through the Sphinx front end (partitioned over the shards)
     k = 0
     batch = []
